@@ -8,6 +8,7 @@ import (
 	"os/exec"
 	"path/filepath"
 	"runtime"
+	"runtime/pprof"
 	"sort"
 	"strconv"
 	"strings"
@@ -69,10 +70,16 @@ func cmdRun(args []string) int {
 	maxPaths := fs.Int64("max-paths", 0, "path budget")
 	maxSteps := fs.Int64("max-steps", 20_000_000, "SSA steps per path")
 	trace := fs.Bool("trace", false, "trace instructions (use with -workers 1)")
+	cpuprof := fs.String("cpuprofile", "", "write cpu profile")
 	if len(args) < 2 {
 		usage()
 	}
 	fs.Parse(args[2:])
+	if *cpuprof != "" {
+		f, _ := os.Create(*cpuprof)
+		pprof.StartCPUProfile(f)
+		defer pprof.StopCPUProfile()
+	}
 	P, err := loadProgram([]string{args[0]})
 	if err != nil {
 		fmt.Fprintln(os.Stderr, err)
@@ -95,6 +102,11 @@ func cmdRun(args []string) int {
 	e := newExplorer(P, fn, cfg)
 	e.Run()
 	e.summary(os.Stdout, time.Since(t0))
+	lastProgram = P
+	for k := range e.violations {
+		ok, path, detail := confirmViolation(&e.violations[k], "DEV", args[0], k)
+		fmt.Printf("  replay %s: confirmed=%v %s\n", path, ok, detail)
+	}
 	if len(e.violations) > 0 {
 		return 1
 	}
@@ -180,7 +192,7 @@ func TestZzVerifReplay(t *testing.T) {
 	ovb, _ := json.Marshal(map[string]interface{}{"Replace": repl})
 	ovFile := filepath.Join(tmp, "overlay.json")
 	os.WriteFile(ovFile, ovb, 0o644)
-	cmd := exec.Command("go", "test", "-vet=off", "-count=1", "-tags=verif", "-overlay", ovFile,
+	cmd := exec.Command("go", "test", "-v", "-vet=off", "-count=1", "-tags=verif", "-overlay", ovFile,
 		"-run", "^TestZzVerifReplay$", "-timeout", "300s", pkgPath)
 	cmd.Dir = verifRoot
 	cmd.Env = append(os.Environ(), "GOFLAGS=-mod=mod", "GOPROXY=off", "GOSUMDB=off", "GOTOOLCHAIN=local",
@@ -272,4 +284,36 @@ func cmdReplay(args []string) int {
 		return 1
 	}
 	return 0
+}
+
+// confirmViolation writes the replay file of v and runs it natively.
+func confirmViolation(v *Violation, property, pkgPath string, n int) (bool, string, string) {
+	os.MkdirAll(filepath.Join(verifRoot, "replays"), 0o755)
+	path := filepath.Join(verifRoot, "replays", fmt.Sprintf("%s-%s-%d.json", property, v.Harness, n))
+	rep := map[string]interface{}{
+		"property": property, "harness": v.Harness, "package": pkgPath, "label": v.Label,
+		"model": v.Model, "choices": v.Choices, "observe": v.Observe, "trace": v.Trace,
+	}
+	if err := writeJSON(path, rep); err != nil {
+		return false, path, err.Error()
+	}
+	v.Replay = path
+	failed, mismatch, panicked, out, err := nativeReplay(pkgPath, v.Harness, path)
+	if err != nil {
+		tail := out
+		if len(tail) > 1500 {
+			tail = tail[len(tail)-1500:]
+		}
+		return false, path, "native replay failed to run: " + err.Error() + "\n" + tail
+	}
+	detail := fmt.Sprintf("native: failed=%q panic=%q mismatch=%q", failed, panicked, mismatch)
+	for _, f := range failed {
+		if f == v.Label {
+			return true, path, detail
+		}
+	}
+	if panicked != "" && strings.HasPrefix(v.Label, "uncaught panic") {
+		return true, path, detail
+	}
+	return false, path, detail
 }
